@@ -31,7 +31,7 @@ type HashBinCase struct {
 	MoveAway bool `json:"move_away,omitempty"`
 }
 
-var hashBinKinds = []string{"regular", "regular", "dir", "missing", "dangling", "symlink", "unreadable", "empty", "devnull", "dirlink"}
+var hashBinKinds = []string{"regular", "regular", "dir", "missing", "dangling", "symlink", "unreadable", "empty", "devnull", "dirlink", "loop", "below-file"}
 
 func genHashBin(t *rapid.T) HashBinCase {
 	c := genHashBinBody(t)
@@ -87,6 +87,15 @@ func execHashBin(s *ev.Shard, b *sandbox.Box, c HashBinCase) *rp.Fail {
 		case "dirlink":
 			files[name+".d/x"] = "x"
 			post = append(post, func() error { return os.Symlink(name+".d", p) })
+		case "loop":
+			// a link to itself: open fails with ELOOP, neither "missing" nor "permission denied"
+			faulty = true
+			post = append(post, func() error { return os.Symlink(name, p) })
+		case "below-file":
+			// the dependency d<i> is fine, but a second one names a path below it (ENOTDIR)
+			faulty = true
+			files[name] = "a file, not a directory"
+			deps = append(deps, `"`+name+`/inside"`)
 		case "unreadable":
 			faulty = true
 			files[name] = "secret"
@@ -103,7 +112,11 @@ func execHashBin(s *ev.Shard, b *sandbox.Box, c HashBinCase) *rp.Fail {
 	logPath := filepath.Join(b.Home, "run.log")
 	if c.Prime && !moveAway {
 		prime := map[string]string{"spokfile": src}
-		for i := range c.Kinds {
+		for i, k := range c.Kinds {
+			if k == "below-file" {
+				prime[fmt.Sprintf("d%d/inside", i)] = "as it was at first" // d<i> is a directory to begin with
+				continue
+			}
 			prime[fmt.Sprintf("d%d", i)] = "as it was at first"
 		}
 		if err := writeProject(b, b.Proj, prime); err != nil {
